@@ -62,8 +62,29 @@ fn push(op: CoinOp) {
     });
 }
 
+thread_local! {
+    /// alias probe: (other nonce, result). When set, a RecordingCoin asked for the query positions
+    /// under nonce n also asks two lock-step copies of itself for 64 integers below 2^32 under n
+    /// and under the other nonce, and stores whether the two answers are IDENTICAL.
+    static ALIAS_PROBE: RefCell<Option<(u64, Option<bool>)>> = const { RefCell::new(None) };
+}
+
+pub fn set_alias_probe(other_nonce: u64) {
+    ALIAS_PROBE.with(|p| *p.borrow_mut() = Some((other_nonce, None)));
+}
+
+/// Some(true): the coin, in the state in which it was asked for the positions, gives identical
+/// outputs for the two nonces - they are aliases, not two nonces that happen to select the same
+/// positions (identical 2048 bits by chance: never)
+pub fn take_alias_probe() -> Option<bool> {
+    ALIAS_PROBE.with(|p| p.borrow_mut().take().and_then(|(_, r)| r))
+}
+
 pub struct RecordingCoin<H: ElementHasher> {
     inner: DefaultRandomCoin<H>,
+    /// two copies kept in lock step (the coin is not Clone), used by the alias probe only
+    shadow_a: DefaultRandomCoin<H>,
+    shadow_b: DefaultRandomCoin<H>,
 }
 
 pub fn elems_hash<B: StarkField>(seed: &[B]) -> u64 {
@@ -76,11 +97,13 @@ impl<B: StarkField, H: ElementHasher<BaseField = B>> RandomCoin for RecordingCoi
 
     fn new(seed: &[B]) -> Self {
         push(CoinOp::New { seed_elems: seed.len(), seed_hash: elems_hash(seed) });
-        RecordingCoin { inner: DefaultRandomCoin::new(seed) }
+        RecordingCoin { inner: DefaultRandomCoin::new(seed), shadow_a: DefaultRandomCoin::new(seed), shadow_b: DefaultRandomCoin::new(seed) }
     }
 
     fn reseed(&mut self, data: H::Digest) {
         push(CoinOp::Reseed { data: data.as_bytes().to_vec() });
+        self.shadow_a.reseed(data);
+        self.shadow_b.reseed(data);
         self.inner.reseed(data)
     }
 
@@ -92,6 +115,8 @@ impl<B: StarkField, H: ElementHasher<BaseField = B>> RandomCoin for RecordingCoi
 
     fn draw<E: FieldElement<BaseField = B>>(&mut self) -> Result<E, RandomCoinError> {
         let r = self.inner.draw::<E>();
+        let _ = self.shadow_a.draw::<E>();
+        let _ = self.shadow_b.draw::<E>();
         match &r {
             Ok(e) => push(CoinOp::Draw {
                 ext_degree: E::EXTENSION_DEGREE,
@@ -104,6 +129,16 @@ impl<B: StarkField, H: ElementHasher<BaseField = B>> RandomCoin for RecordingCoi
     }
 
     fn draw_integers(&mut self, num_values: usize, domain_size: usize, nonce: u64) -> Result<Vec<usize>, RandomCoinError> {
+        let probe = ALIAS_PROBE.with(|p| p.borrow().as_ref().map(|(o, _)| *o));
+        if let Some(other) = probe {
+            let a = self.shadow_a.draw_integers(64, 1usize << 32, nonce);
+            let b = self.shadow_b.draw_integers(64, 1usize << 32, other);
+            let same = matches!((&a, &b), (Ok(x), Ok(y)) if x == y) && self.inner.check_leading_zeros(nonce) == self.inner.check_leading_zeros(other);
+            ALIAS_PROBE.with(|p| *p.borrow_mut() = Some((other, Some(same))));
+        } else {
+            let _ = self.shadow_a.draw_integers(num_values, domain_size, nonce);
+            let _ = self.shadow_b.draw_integers(num_values, domain_size, nonce);
+        }
         let r = self.inner.draw_integers(num_values, domain_size, nonce);
         push(CoinOp::Integers {
             count: num_values,
